@@ -460,7 +460,7 @@ func runCase(c Case) {
 	if nontrivial {
 		run.Nontrivial(line)
 		if len(c.Pushes) > 1 || (len(c.Pushes) == 1 && len(c.Pushes[0].Entries) > 2) {
-			run.Sample(c)
+			run.Sample(map[string]any{"pushes": c.Pushes, "preserve": c.Preserve, "verdicts": verdicts, "origin": c.Origin})
 		}
 	}
 }
